@@ -192,8 +192,8 @@ def case(rng: Any, ctx: Ctx, index: int) -> None:
         f = HWPOperator.create(shape, dt, kind, angles=a)
         e = CompositionOperator([P, Rb, f])
         ref_n = M['P'] @ M['Rb'] @ M['RT'] @ M['H'] @ M['R']
-        compare('C15.factory', 'nested-chain[pol, R(b), hwp.create(a)]/unreduced', ref_n, e, tol * 3)
-        compare('C15.factory', 'nested-chain[pol, R(b), hwp.create(a)]/reduced', ref_n, e.reduce(), tol * 3)
+        compare('C15.factory', 'nested-chain(pol,R(b),hwp.create(a))/unreduced', ref_n, e, tol * 3)
+        compare('C15.factory', 'nested-chain(pol,R(b),hwp.create(a))/reduced', ref_n, e.reduce(), tol * 3)
     if rng.integers(3) == 0:
         guarded('C15.factory', j_nested)
 
